@@ -160,6 +160,55 @@ def _alarm(signum, frame):
     raise Timeout()
 
 
+_IN_PLACE_LISTS = ("allOf", "anyOf", "oneOf")
+_IN_PLACE_SINGLE = ("not", "if", "then", "else")
+
+
+def in_place_refs(node: Any, out: Set[str]):
+    """$ref targets applied to the *same* instance as `node` (through $ref / allOf / anyOf / oneOf / not /
+    if-then-else only): following them consumes no instance depth"""
+    if not isinstance(node, dict):
+        return
+    r = node.get("$ref")
+    if isinstance(r, str):
+        out.add(r)
+    for k in _IN_PLACE_LISTS:
+        for sub in node.get(k, ()) if isinstance(node.get(k), list) else ():
+            in_place_refs(sub, out)
+    for k in _IN_PLACE_SINGLE:
+        in_place_refs(node.get(k), out)
+
+
+def nonproductive_cycle(defs: Dict[str, Any], prefix: str) -> Optional[List[str]]:
+    """a cycle of definitions that refer to each other in place: the schema is not finite (a validator
+    unfolds it forever whatever the instance)"""
+    graph: Dict[str, Set[str]] = {}
+    for name, d in defs.items():
+        out: Set[str] = set()
+        in_place_refs(d, out)
+        graph[name] = {r[len(prefix) :] for r in out if r.startswith(prefix) and r[len(prefix) :] in defs}
+    color: Dict[str, int] = {}
+
+    def dfs(n, path):
+        color[n] = 1
+        for m in sorted(graph.get(n, ())):
+            if color.get(m) == 1:
+                return path + [n, m]
+            if color.get(m) is None:
+                r = dfs(m, path + [n])
+                if r:
+                    return r
+        color[n] = 2
+        return None
+
+    for n in sorted(graph):
+        if color.get(n) is None:
+            r = dfs(n, [])
+            if r:
+                return r
+    return None
+
+
 def check_schema_doc(schema: dict, vname: str, with_schema: bool, st, base, defs_external: Optional[dict], prefix: Optional[str]):
     """meta-schema validity + ref closure; returns the set of definition names used"""
     V = declared_validator(schema)
@@ -200,6 +249,11 @@ def check_schema_doc(schema: dict, vname: str, with_schema: bool, st, base, defs
         target = inline if defs_external is None else defs_external
         if name not in target:
             st.violation(dict(base, signature={"kind": "dangling_ref", "version": vname}, what=f"$ref {r!r} resolves to no definition (definitions: {sorted(target)})"[:300], schema=json.dumps(schema)[:1200]))
+    target = inline if defs_external is None else defs_external
+    if prefix is not None and isinstance(target, dict):
+        cyc = nonproductive_cycle(target, prefix)
+        if cyc:
+            st.violation(dict(base, signature={"kind": "nonproductive_ref_cycle", "version": vname}, what=f"definitions refer to each other in place (no instance depth consumed): {' -> '.join(cyc)}"[:300], schema=json.dumps(schema)[:1200]))
     if defs_external is None:
         unreachable = set(inline) - used
         if unreachable:
@@ -295,6 +349,39 @@ def run_type(i, label, spec, tier, st):
                                         st.violation(dict(base, signature={"kind": "definitions_schema_differs", "side": side}, what=f"definitions_schema = {sorted(ds)} differs from inline $defs {sorted(schema.get('$defs', {}))}"[:300]))
                             except Exception as e:
                                 st.violation(dict(base, signature={"kind": "definitions_exception", "exc": type(e).__name__}, what=f"definitions_schema raised {e!r}"[:300]))
+    # definitions shared by both sides: definitions_schema(deserialization=[T], serialization=[T]) must give,
+    # for every name whose two definitions are equal, that very definition (in the requested version)
+    for all_refs in (False, True):
+        for vname in versions:
+            if lvl > 1 and tier == "quick" and not (all_refs and vname == "oas3.0"):
+                continue  # quick: the full (all_refs x version) cross only up to nesting level 1
+            version = VERSIONS[vname]
+            base = {"label": label, "type": short(spec), "options": ["both", all_refs, vname], "source": rz.source}
+            try:
+                dd = json.loads(json.dumps(definitions_schema(deserialization=[rz.tp], all_refs=all_refs, version=version)))
+                ds = json.loads(json.dumps(definitions_schema(serialization=[rz.tp], all_refs=all_refs, version=version)))
+            except Exception:
+                continue  # reported above
+            try:
+                both = json.loads(json.dumps(definitions_schema(deserialization=[rz.tp], serialization=[rz.tp], all_refs=all_refs, version=version)))
+            except TypeError as e:
+                if "different schemas" in str(e) and any(dd.get(k) != ds.get(k) for k in set(dd) & set(ds)):
+                    st.count("both_sides_refused(different schemas)")
+                    continue
+                st.violation(dict(base, signature={"kind": "definitions_both_exception", "exc": "TypeError"}, what=f"definitions_schema(both) raised {e!r}"[:300]))
+                continue
+            except Exception as e:
+                st.violation(dict(base, signature={"kind": "definitions_both_exception", "exc": type(e).__name__}, what=f"definitions_schema(both) raised {e!r}"[:300]))
+                continue
+            st.case(dc.shape_of(label), ("both", all_refs, vname), tuple(sorted(both)))
+            if set(both) != set(dd) | set(ds):
+                st.violation(dict(base, signature={"kind": "definitions_both_names", "version": vname}, what=f"definitions_schema(both) names {sorted(both)} != union of {sorted(dd)} and {sorted(ds)}"[:300]))
+                continue
+            for k in both:
+                one = dd.get(k, ds.get(k))
+                if (k not in dd or k not in ds or dd[k] == ds[k]) and both[k] != one:
+                    st.violation(dict(base, signature={"kind": "definitions_both_differs", "version": vname}, what=f"definition {k!r} of definitions_schema(deserialization+serialization) = {json.dumps(both[k])[:150]} differs from the one-sided definition {json.dumps(one)[:150]}"[:400]))
+                    break
     case.drop()
     dc.periodic_reset(i)
 
@@ -389,7 +476,78 @@ class Bad:
 class HoldsBadUnion:
     u: Union[Bad, int] = 0
     l: List[Union[int, Bad]] = field(default_factory=list)
+@discriminator("kind")
+@dataclass
+class PetD:
+    name: str = ""
+@dataclass
+class CatD(PetD):
+    lives: int = 9
+@dataclass
+class DogD(PetD):
+    bark: bool = True
+@dataclass
+class OwnerD:
+    pet: Optional[CatD] = None
+@dataclass
+class SerRec:
+    x: int = 0
+    @serialized
+    def kids(self) -> List["SerRec"]:
+        return []
+@dataclass
+class SerRecOpt:
+    x: int = 0
+    @serialized
+    def nxt(self) -> Optional["SerRecOpt"]:
+        return None
+@dataclass
+class SerTwice:
+    a: A
+    @serialized
+    def other(self) -> A:
+        return self.a
+@dataclass
+class RecBadAfter:
+    nxt: Optional["RecBadAfter"]
+    bad: Opaque
+@dataclass
+class RecBadBefore:
+    bad: Opaque
+    nxt: Optional["RecBadBefore"]
+@dataclass
+class HoldsRecBad:
+    u: Union[str, RecBadAfter] = ""
+    v: Union[RecBadBefore, int] = 0
+# one named type reached through equivalent spellings of a builtin / abstract container
+NamedD1 = Annotated[Dict[str, int], type_name("StrIntMap")]
+NamedD2 = Annotated[dict[str, int], type_name("StrIntMap")]
+@dataclass
+class HoldsSpellings:
+    d1: NamedD1
+    d2: NamedD2
+@type_name(lambda tp, arg: "IntPage")
+@dataclass
+class Page(Generic[TV]):
+    items: TV
+@dataclass
+class HoldsPages:
+    p1: Page[List[int]]
+    p2: Page[list[int]]
+    p3: List[Page[Sequence[int]]]
 EXPECT = {
+    "HoldsSpellings": (HoldsSpellings, {"StrIntMap"}, {"HoldsSpellings", "StrIntMap"}),
+    "HoldsPages": (HoldsPages, {"IntPage"}, {"HoldsPages", "IntPage"}),
+    "PetD": (PetD, {"PetD", "CatD", "DogD"}, {"PetD", "CatD", "DogD"}),
+    "CatD": (CatD, {"PetD"}, {"PetD", "CatD"}),
+    "OwnerD": (OwnerD, {"PetD"}, {"OwnerD", "PetD", "CatD"}),
+    "ListPetD": (List[PetD], {"PetD", "CatD", "DogD"}, {"PetD", "CatD", "DogD"}),
+    "SerRec": (SerRec, {"SerRec"}, {"SerRec"}, "ser"),
+    "SerRecOpt": (SerRecOpt, {"SerRecOpt"}, {"SerRecOpt"}, "ser"),
+    "SerTwice": (SerTwice, {"Renamed"}, {"SerTwice", "Renamed"}, "ser"),
+    "RecBadAfter": (Union[str, RecBadAfter], set(), set()),
+    "RecBadBefore": (Union[str, RecBadBefore], set(), set()),
+    "HoldsRecBad": (HoldsRecBad, set(), {"HoldsRecBad"}),
     "Pet": (Pet, {"Pet", "Cat", "Dog"}, {"Pet", "Cat", "Dog"}),
     "Cat": (Cat, {"Pet"}, {"Pet", "Cat"}),
     "CatOrDog": (Union[Cat, Dog], {"Pet", "Cat", "Dog"}, {"Pet", "Cat", "Dog"}),
@@ -412,8 +570,10 @@ REFUSED = {"Clash": (Clash, ValueError), "NamelessRec": (NamelessRec, TypeError)
 
 def run_worlds(st: infra.Stats):
     mod = exec_source(PRELUDE + WORLD_SRC)
-    for name, (tp, exp_shared, exp_all) in mod.EXPECT.items():
+    for name, (tp, exp_shared, exp_all, *only_side) in mod.EXPECT.items():
         for fn in (deserialization_schema, serialization_schema):
+            if only_side and (only_side[0] == "ser") != (fn is serialization_schema):
+                continue
             for all_refs, exp in ((False, exp_shared), (True, exp_all)):
                 for vname, version in VERSIONS.items():
                     base = {"label": "world:" + name, "options": [fn.__name__, all_refs, vname]}
@@ -424,7 +584,11 @@ def run_worlds(st: infra.Stats):
                         continue
                     external = None
                     if vname in ("oas3.0", "oas3.1"):
-                        external = json.loads(json.dumps(definitions_schema(**{"deserialization" if fn is deserialization_schema else "serialization": [tp]}, all_refs=all_refs, version=version)))
+                        try:
+                            external = json.loads(json.dumps(definitions_schema(**{"deserialization" if fn is deserialization_schema else "serialization": [tp]}, all_refs=all_refs, version=version)))
+                        except Exception as e:
+                            st.violation(dict(base, signature={"kind": "definitions_exception", "exc": type(e).__name__, "world": name}, what=f"{name}: definitions_schema raised {e!r}"[:300]))
+                            continue
                     prefix = {"draft-07": "#/definitions/", "oas3.0": "#/components/schemas/", "oas3.1": "#/components/schemas/"}.get(vname, "#/$defs/")
                     check_schema_doc(s, vname, True, st, base, external, prefix)
                     defs_key = "definitions" if vname == "draft-07" else "$defs"
@@ -451,7 +615,7 @@ def work(tier, widx, nworkers, st, extra):
     import os
 
     signal.signal(signal.SIGALRM, _alarm)
-    if widx == 0 and not os.environ.get("VERIF_ONLY"):
+    if widx == 0 and os.environ.get("VERIF_ONLY") in (None, "", "world"):
         run_worlds(st)
     for i, label, spec in dc.my_types(tier, widx, nworkers):
         signal.alarm(60)
